@@ -566,7 +566,9 @@ class _parser:
                 # dateobj may have been made offset-aware above only to be comparable
                 # with an aware RELATIVE_BASE; tz-database zones need the naive wall time
                 tz_offset = tz.utcoffset(original_dateobj)
-            except (pytz.UnknownTimeZoneError, pytz.NonExistentTimeError):
+            except (pytz.UnknownTimeZoneError, pytz.InvalidTimeError):
+                # InvalidTimeError: the wall time does not exist (DST gap) or is
+                # ambiguous (DST overlap) in that zone
                 tz_offset = timedelta(hours=0)
 
             if "past" in self.settings.PREFER_DATES_FROM:
